@@ -27,6 +27,9 @@ func ParseDecimalToBigEndian8(s string) ([]byte, error) {
 // LeftPadHex returns the input hex string left-padded with '0' characters until it reaches totalLen characters.
 // If the input string is longer than or equal to totalLen, it returns the rightmost totalLen characters.
 func LeftPadHex(s string, totalLen int) string {
+	if totalLen <= 0 {
+		return ""
+	}
 	if len(s) >= totalLen {
 		return s[len(s)-totalLen:]
 	}
